@@ -3,7 +3,7 @@
    OCaml's own; N, positive, nat, ascii, string, comparison stay Coq datatypes. *)
 Require Extraction.
 Require ExtrOcamlBasic.
-From RC Require Import Base.Res Base.Wire Model.Enums Gen.EnumTables Gen.Merge Model.Open Model.Negotiate Gen.CmpChain Model.Select Model.Nlri Model.NlriOrd Model.AsPath Gen.AttrRules Model.Attr Model.Update Gen.BuilderConsts Model.Builder Model.PaMap.
+From RC Require Import Base.Res Base.Wire Model.Enums Gen.EnumTables Gen.Merge Model.Open Model.Negotiate Gen.CmpChain Model.Select Model.Nlri Model.NlriOrd Model.AsPath Gen.AttrRules Model.Attr Model.Update Gen.BuilderConsts Model.Builder Model.PaMap Gen.CapRules Model.OpenMsg.
 Extraction Language OCaml.
 Set Extraction KeepSingleton.
 Extraction "../ocaml/model.ml"
@@ -33,4 +33,9 @@ Extraction "../ocaml/model.ml"
   PaMap.pm_set PaMap.pm_get PaMap.pm_remove PaMap.pm_add_attribute PaMap.pm_set_from_enum PaMap.pm_merge_upsert
   PaMap.pm_remove_non_transitives PaMap.opa_get PaMap.ws_set_attr PaMap.ws_get_attr PaMap.ws_set_communities
   PaMap.ws_get_communities PaMap.ws_from_pdu PaMap.comm_width Builder.typed_announcements
+  OpenMsg.open_check OpenMsg.o_version OpenMsg.o_holdtime OpenMsg.o_identifier OpenMsg.o_opt_parm_len OpenMsg.o_parameters
+  OpenMsg.o_capabilities OpenMsg.o_my_asn OpenMsg.o_four_octet_capable OpenMsg.o_multiprotocol_ids OpenMsg.o_addpath_families
+  OpenMsg.o_software_version OpenMsg.notif_check OpenMsg.n_code OpenMsg.n_subcode OpenMsg.n_data OpenMsg.notif_build
+  OpenMsg.keepalive_check OpenMsg.keepalive_build OpenMsg.rr_parse OpenMsg.msg_dispatch OpenMsg.ob_new OpenMsg.ob_set_asn
+  OpenMsg.ob_add_cap OpenMsg.ob_four_octet OpenMsg.ob_add_mp OpenMsg.ob_add_addpath OpenMsg.ob_finish Wire.index
   EnumTables.all_enum_widths EnumTables.all_enum_names.
